@@ -121,6 +121,14 @@ def run(ctx):
         if rng.random() < (0.3 if quick else 1.0):
             w = rng.choice(['grdp', 'mp_grdp', 'min_point_rdp'])
             one(ctx, w, pts, rand_cfg(ctx, w, pts), 'exhaustive-small')
+    for _ in range(2 if quick else 20):
+        # a LONG curve (beyond 1024 / 4096 points) with a threshold met after a few dozen refinements
+        pts, fam = rdpfam.long_curve(rng, rng.randrange(1100, 1400))
+        w = rng.choice(['grdp', 'mp_grdp'])
+        cfg = dict(dist=rng.choice(rdpfam.DISTS), cost=rng.choice(['smape', 'rpd', 'rmspe']), order=rng.choice(rdpfam.ORDERS), t=rng.choice([0.3, 0.5, 0.2]))
+        if w == 'mp_grdp':
+            cfg['m'] = rng.randrange(2, 40)
+        one(ctx, w, pts, cfg, fam)
     for _ in range(450 if quick else 9000):
         pts, fam = rdpfam.random_points(ctx, 24 if quick else 64)
         w = rng.choice(['grdp', 'grdp', 'mp_grdp', 'mp_grdp', 'min_point_rdp'])
